@@ -28,6 +28,8 @@ func vDrawNIs(i int, n uint32) bool
 func vReads() int
 func vTapeLen() int
 func vTapeByte(i int) byte
+func vTapeScript(w0, w1 uint32)
+func vTapeScriptEnd()
 func vFaultAt(k, n int)
 func vFaultHit() bool
 func vShortReads(on bool)
